@@ -137,7 +137,7 @@ def probe_state(sb, ref, cs, fee, faults):
             msgs.append("holdings_weights raised %r with all needed quotes present" % (ex,))
     out.append(("weights", msgs, val_impossible))
     # ---- rebalances
-    for measure, alloc in TARGETS:
+    for (measure, alloc), margin in itertools.product(TARGETS, (0.0, 0.015625)):
         msgs = []
         b = fresh()
         pre_pos = positions(b)
@@ -150,6 +150,7 @@ def probe_state(sb, ref, cs, fee, faults):
         except Exception:
             pre_equity_marked = pre_equity
         must, may = val_impossible, val_impossible
+        soft = False       # a required side is missing but the other side is quoted
         if not val_impossible:
             nlv = exp_nlv
             for c, a in zip(allc, alloc):
@@ -160,6 +161,7 @@ def probe_state(sb, ref, cs, fee, faults):
                         px = book.ask_price if a > 0 else book.bid_price
                         if not has(px):
                             must = True
+                            soft = soft or has(book.ask_price) or has(book.bid_price)
                             continue
                         tgt = Fr(a) * nlv / Fr(px) / Fr(c.multiplier)
                     else:
@@ -171,9 +173,14 @@ def probe_state(sb, ref, cs, fee, faults):
                     side = book.ask_price if imb > 0 else book.bid_price
                     if not has(side):
                         must = True
+                        soft = soft or has(book.ask_price) or has(book.bid_price)
                     elif not (has(book.bid_price) and has(book.ask_price)):
                         may = True
-        rb = Rebalancing(contracts=allc, allocation=list(alloc), measure=measure, time=T0 + timedelta(days=1))
+        if margin and must and soft:
+            # with a no-trade threshold an implementation may size the imbalance from the side that IS quoted and find it below the
+            # threshold; only a contract without any quote cannot be sized at all
+            must, may = False, True
+        rb = Rebalancing(contracts=allc, allocation=list(alloc), measure=measure, time=T0 + timedelta(days=1), margin=margin)
         raised = None
         try:
             b.rebalance(rb)
@@ -184,7 +191,7 @@ def probe_state(sb, ref, cs, fee, faults):
             raised = ex
         if raised is not None:
             if not (must or may):
-                msgs.append("rebalance to %s %s raised %r although no required quote is missing (faults %s)" % (measure, alloc, raised, faults))
+                msgs.append("rebalance to %s %s (threshold %s) raised %r although no required quote is missing (faults %s)" % (measure, alloc, margin, raised, faults))
             if positions(b) != pre_pos:
                 msgs.append("rebalance raised %r but positions changed from %r to %r" % (raised, pre_pos, positions(b)))
             if len(b.track_record) != pre_len:
@@ -194,8 +201,8 @@ def probe_state(sb, ref, cs, fee, faults):
                             % (pre_equity, pre_equity_marked, equity(b)))
         else:
             if must:
-                msgs.append("rebalance to %s %s returned although it needs a missing quote (faults %s); trades %r"
-                            % (measure, alloc, faults, [(str(t.contract), t.quantity) for t in rb.trades]))
+                msgs.append("rebalance to %s %s (threshold %s) returned although it needs a missing quote (faults %s); trades %r"
+                            % (measure, alloc, margin, faults, [(str(t.contract), t.quantity) for t in rb.trades]))
             for tr in rb.trades:
                 if not (has(tr.bid_price) and has(tr.ask_price) and has(tr.quantity) and has(tr.acq_price)):
                     msgs.append("executed trade with non-finite price/quantity: %r" % tr)
@@ -215,7 +222,7 @@ def probe_state(sb, ref, cs, fee, faults):
                 pass
             except Exception as ex:
                 msgs.append("valuation after a successful rebalance raised %r" % (ex,))
-        out.append(("rebalance:%s:%s" % (measure, alloc), msgs, must or raised is not None))
+        out.append(("rebalance:%s:%s%s" % (measure, alloc, ":thr" if margin else ""), msgs, must or raised is not None))
     return out
 
 
@@ -284,7 +291,7 @@ def run(tier, **kw):
     rep.set("distinct_nontrivial", len(nt) + env_n)
     rep.set("fault_kinds", FAULTS[1:])
     rep.set("exhaustive", True)
-    rep.set("rule", "one evaluation = one probe (valuation | weights | rebalance to one of 8 targets over the 2 traded contracts and a never-quoted third) "
+    rep.set("rule", "one evaluation = one probe (valuation | weights | rebalance, without and with a no-trade threshold, to one of 8 targets over the 2 traded contracts and a never-quoted third) "
                     "after injecting one of the 24 non-trivial fault assignments {none, bid NaN, ask NaN, both NaN, discontinued then re-quoted}^2 (plus 3 assignments in which the third contract is discontinued before its first quote and quoted afterwards) into a copy "
                     "of a reachable broker state; enumerated over every state of the ledger BFS within the depth bound; non-trivial = distinct probe in which "
                     "an error is required (a non-zero position lost its liquidation side, or a required trade lost its execution side) or was raised; "
